@@ -3,6 +3,7 @@ package rockredis
 import (
 	"bytes"
 	"errors"
+	"strconv"
 	"strings"
 
 	"github.com/tidwall/gjson"
@@ -14,6 +15,8 @@ var (
 	jSep                = byte(':')
 	errJSONPathNotArray = errors.New("json path is not array")
 	errInvalidJSONValue = errors.New("invalid json value")
+
+	errJSONPathIndexTooLarge = errors.New("json path array index is too large")
 )
 
 func checkJSONValueSize(value []byte) error {
@@ -70,12 +73,43 @@ func encodeJSONStopKey(table []byte, key []byte) []byte {
 	return buf
 }
 
+// checkJSONPathIndex refuses a path with an array index which can only produce a document
+// larger than the allowed json size. A numeric path component is an array index
+// and sjson fills the array with "null," elements up to that index before
+// the size of the result could be checked.
+func checkJSONPathIndex(path string) error {
+	maxIndex := uint64(MaxValueSize * 2 / len("null,"))
+	for _, part := range strings.Split(path, ".") {
+		if len(part) == 0 {
+			continue
+		}
+		isIndex := true
+		for i := 0; i < len(part); i++ {
+			if part[i] < '0' || part[i] > '9' {
+				isIndex = false
+				break
+			}
+		}
+		if !isIndex {
+			continue
+		}
+		n, err := strconv.ParseUint(part, 10, 64)
+		if err != nil || n > maxIndex {
+			return errJSONPathIndexTooLarge
+		}
+	}
+	return nil
+}
+
 func (db *RockDB) jSetPath(jdata []byte, path string, value []byte) ([]byte, error) {
 	if len(path) == 0 {
 		// for set path it will change the value, so we need return copy
 		v := make([]byte, len(value))
 		copy(v, value)
 		return v, nil
+	}
+	if err := checkJSONPathIndex(path); err != nil {
+		return nil, err
 	}
 	return sjson.SetRawBytes(jdata, path, value)
 }
